@@ -1,6 +1,7 @@
 package main
 
 import (
+	"fmt"
 	"math/rand"
 
 	"gopkg.in/typ.v4/slices"
@@ -14,6 +15,14 @@ func driveSort(plan []M, out *Out, _ []string) {
 		op, t, d := str(c, "op"), num(c, "t"), num(c, "d")
 		if d == 0 {
 			d = 10
+		}
+		if op == "BigSort" {
+			bigSort(c, out)
+			continue
+		}
+		if ty := str(c, "ty"); ty != "" {
+			typedSort(c, ty, out)
+			continue
 		}
 		s0 := ints(c, "s")
 		s := append([]int{}, s0...)
@@ -50,4 +59,125 @@ func driveSort(plan []M, out *Out, _ []string) {
 		e["res"], e["res2"] = s, res2
 		out.Emit(e)
 	}
+}
+
+// Sort / SortDesc / BinarySearch on other ordered element types; the ids of the plan (0..255) are mapped monotonically:
+// int8 id-128 (id 0 is the type's minimum), uint8 id, float64 id/4-10, string "%04d".  Results are mapped back.
+func typedSort(c M, ty string, out *Out) {
+	switch ty {
+	case "int8":
+		typedSortT(c, out, func(v int) int8 { return int8(v - 128) }, func(x int8) int { return int(x) + 128 })
+	case "uint8":
+		typedSortT(c, out, func(v int) uint8 { return uint8(v) }, func(x uint8) int { return int(x) })
+	case "float64":
+		typedSortT(c, out, func(v int) float64 { return float64(v)/4 - 10 }, func(x float64) int { return int((x + 10) * 4) })
+	default:
+		typedSortT(c, out, func(v int) string { return fmt.Sprintf("%04d", v) }, func(x string) int {
+			v := 0
+			fmt.Sscanf(x, "%d", &v)
+			return v
+		})
+	}
+}
+
+func typedSortT[T int8 | uint8 | float64 | string](c M, out *Out, to func(int) T, from func(T) int) {
+	op, t, s0 := str(c, "op"), num(c, "t"), ints(c, "s")
+	s := make([]T, len(s0))
+	for i, v := range s0 {
+		s[i] = to(v)
+	}
+	e := M{"op": op, "t": t, "d": 10, "s": s0, "ri": 0, "ty": str(c, "ty")}
+	e["panic"] = protect(func() {
+		switch op {
+		case "Sort":
+			slices.Sort(s)
+		case "SortDesc":
+			slices.SortDesc(s)
+		case "BinarySearch":
+			e["ri"] = slices.BinarySearch(s, to(t))
+		}
+	})
+	res := []int{}
+	for _, x := range s {
+		res = append(res, from(x))
+	}
+	e["res"], e["res2"] = res, []int{}
+	out.Emit(e)
+}
+
+// bigSort: thousands of elements given by a formula, the result logged losslessly as runs.
+// input element i (0 <= i < n): key(i) = (i*a+b) mod m + 1; plain variants sort the keys, the Func variants sort key*d+i
+// (d > n) with a less that looks at the key only.  Runs: plain [value, count]; stable Func variants [first element, step,
+// count] for every maximal arithmetic progression inside one key; the other Func variants [key, count, sum of the tags].
+func bigSort(c M, out *Out) {
+	variant, n, a, b, m, d := str(c, "variant"), num(c, "n"), num(c, "a"), num(c, "b"), num(c, "m"), num(c, "d")
+	e := M{"op": "BigSort", "variant": variant, "n": n, "a": a, "b": b, "m": m, "d": d}
+	plain := variant == "Sort" || variant == "SortDesc"
+	s := make([]int, n)
+	for i := range s {
+		k := (i*a+b)%m + 1
+		if plain {
+			s[i] = k
+		} else {
+			s[i] = k*d + i
+		}
+	}
+	less := func(x, y int) bool { return x/d < y/d }
+	e["panic"] = protect(func() {
+		switch variant {
+		case "Sort":
+			slices.Sort(s)
+		case "SortDesc":
+			slices.SortDesc(s)
+		case "SortFunc":
+			slices.SortFunc(s, less)
+		case "SortDescFunc":
+			slices.SortDescFunc(s, less)
+		case "SortStableFunc":
+			slices.SortStableFunc(s, less)
+		case "SortStableDescFunc":
+			slices.SortStableDescFunc(s, less)
+		}
+	})
+	runs := [][]int{}
+	switch {
+	case plain:
+		for _, v := range s {
+			if len(runs) > 0 && runs[len(runs)-1][0] == v {
+				runs[len(runs)-1][1]++
+			} else {
+				runs = append(runs, []int{v, 1})
+			}
+		}
+	case variant == "SortStableFunc" || variant == "SortStableDescFunc":
+		for i, v := range s {
+			if len(runs) > 0 {
+				r := runs[len(runs)-1]
+				sameKey := s[i-1]/d == v/d
+				if sameKey && r[2] == 1 {
+					r[1], r[2] = v-s[i-1], 2
+					continue
+				}
+				if sameKey && v-s[i-1] == r[1] {
+					r[2]++
+					continue
+				}
+			}
+			runs = append(runs, []int{v, 0, 1})
+		}
+	default:
+		for _, v := range s {
+			if len(runs) > 0 && runs[len(runs)-1][0] == v/d {
+				runs[len(runs)-1][1]++
+				runs[len(runs)-1][2] += v % d
+			} else {
+				runs = append(runs, []int{v / d, 1, v % d})
+			}
+		}
+	}
+	if len(runs) > 400 { // a badly wrong result: keep the line small, the length alone already rejects it
+		runs = runs[:400]
+	}
+	e["runs"], e["len"] = runs, len(s)
+	out.Emit(e)
 }
